@@ -84,7 +84,7 @@ func (h *hist) commit(op *pendingOp) (err error, alive bool) {
 				a := h.accByProto(ad.Identity)
 				t, _ := h.asymTerm(ad.Identity, ad.EncryptedReadKey, idx)
 				h.admit(a, list.AclPermissions(ad.Permissions), idx)
-				items = append(items, fmt.Sprintf("admit %d %s", a, t))
+				items = append(items, fmt.Sprintf("enter %d %s", a, t))
 			}
 		case c.GetRequestAccept() != nil:
 			ra := c.GetRequestAccept()
@@ -93,7 +93,7 @@ func (h *hist) commit(op *pendingOp) (err error, alive bool) {
 			h.admit(a, list.AclPermissions(ra.Permissions), idx)
 			delete(h.pendJoin, a)
 			delete(h.pendRemove, a)
-			items = append(items, fmt.Sprintf("admit %d %s", a, t))
+			items = append(items, fmt.Sprintf("enter %d %s", a, t))
 		case c.GetInviteJoin() != nil:
 			ij := c.GetInviteJoin()
 			a := h.accByProto(ij.Identity)
@@ -108,7 +108,7 @@ func (h *hist) commit(op *pendingOp) (err error, alive bool) {
 			}
 			h.admit(a, p, idx)
 			delete(h.pendJoin, a)
-			items = append(items, fmt.Sprintf("admit %d %s", a, t))
+			items = append(items, fmt.Sprintf("enter %d %s", a, t))
 		case c.GetRequestJoin() != nil:
 			a := h.accByProto(c.GetRequestJoin().InviteIdentity)
 			h.pendJoin[a] = raw.Id
